@@ -159,7 +159,13 @@ func (goh *GoatOverHttp) ServeHTTP(w http.ResponseWriter, r *http.Request) {
 		go goh.onConnect(source, conn)
 	}
 
-	conn.readCh <- &rpc
+	select {
+	case conn.readCh <- &rpc:
+	case <-conn.closed:
+		// timed out or unregistered while we were handing the envelope over
+		log.Error().Msgf("GoatOverHttp: connection to %s closed", source)
+		http.Error(w, "connection closed", http.StatusServiceUnavailable)
+	}
 }
 
 // connectionCleaner ticks every |connectionCleanupInterval|, closing any
@@ -197,6 +203,7 @@ func (goh *GoatOverHttp) retrieve(id string) (*httpReadWriter, bool) {
 		conn = &httpReadWriter{
 			writeAddr: id,
 			readCh:    make(chan *Rpc),
+			closed:    make(chan struct{}),
 			cancel:    func() { goh.unregister(id) },
 			clock:     goh.clock,
 		}
@@ -216,7 +223,8 @@ func (goh *GoatOverHttp) unregister(id string) {
 
 func (goh *GoatOverHttp) unregisterLocked(id string) {
 	if conn, ok := goh.conns.value[id]; ok {
-		close(conn.readCh)
+		// readCh itself is never closed: a ServeHTTP may be sending on it
+		close(conn.closed)
 	}
 
 	delete(goh.conns.value, id)
@@ -225,6 +233,7 @@ func (goh *GoatOverHttp) unregisterLocked(id string) {
 type httpReadWriter struct {
 	writeAddr string
 	readCh    chan *Rpc
+	closed    chan struct{} // closed when the connection is unregistered
 	cancel    func()
 
 	clock        clockwork.Clock
@@ -240,6 +249,9 @@ func (hrw *httpReadWriter) Read(ctx context.Context) (*Rpc, error) {
 		}
 		hrw.bumpActivity()
 		return rpc, nil
+	case <-hrw.closed:
+		log.Error().Msgf("HttpRpcReadWriter: read err: closed")
+		return nil, errors.New("readCh closed")
 	case <-ctx.Done():
 		// server Stop and caller cancellation rely on a blocked Read returning
 		return nil, ctx.Err()
